@@ -68,7 +68,8 @@ Record cstate := {
   g_withheld : list text;          (* lines suppressed as keep-alive replies *)
   g_emitted : bytes;               (* every byte the device emitted *)
   g_fate : list (text * bool);     (* every line whose fate is decided: (line, delivered?) in order *)
-  g_armed : bool                   (* a probe was started (flag set by the sender) since the flag was last cleared *)
+  g_armed : bool;                  (* a probe was started (flag set by the sender) since the flag was last cleared *)
+  g_lost : bool                    (* connection_lost has set connected := False *)
 }.
 
 Inductive action :=
@@ -78,6 +79,7 @@ Inductive action :=
 | Enq (tid : nat) (i : item)
 | EDeq (i : item)                  (* somebody other than the sender removes the head (drain) *)
 | ELock (tid : nat) | EUnlock (tid : nat)
+| ELost                           (* the reader thread, in connection_lost: connected := False *)
 (* sender *)
 | SGetWait (dl : Z) | SDeq (i : item) | SDeqEmpty | SEnqKA | SSetFlag | SLogAdd (t : text)
 | SLockAcq | SWriteA (b : bytes) | SWriteErr | SLockRel | SSleepStartA (d : Z) | SWake | SExit
@@ -95,7 +97,7 @@ Section Step.
     {| now := 0; q := []; spc_ := SLoop; flag := false; lock := None;
        rxport := []; rbuf := []; rpend := []; rpc_ := RIdle; logcap := cap; logbuf := [];
        g_enq := []; g_deq := []; g_drained := []; g_wire := []; g_log := []; g_lines := [];
-       g_packets := []; g_delivered := []; g_withheld := []; g_emitted := []; g_fate := []; g_armed := false |}.
+       g_packets := []; g_delivered := []; g_withheld := []; g_emitted := []; g_fate := []; g_armed := false; g_lost := false |}.
 
   Definition set_spc (s : cstate) (p : spc) : cstate :=
     {| now := now s; q := q s; spc_ := p; flag := flag s; lock := lock s; rxport := rxport s;
@@ -103,7 +105,7 @@ Section Step.
        g_enq := g_enq s; g_deq := g_deq s; g_drained := g_drained s; g_wire := g_wire s;
        g_log := g_log s; g_lines := g_lines s; g_packets := g_packets s;
        g_delivered := g_delivered s; g_withheld := g_withheld s; g_emitted := g_emitted s;
-       g_fate := g_fate s; g_armed := g_armed s |}.
+       g_fate := g_fate s; g_armed := g_armed s; g_lost := g_lost s |}.
 
   Definition add_log (s : cstate) (e : entry) (p : spc) (r : rpc) : cstate :=
     {| now := now s; q := q s; spc_ := p; flag := flag s; lock := lock s; rxport := rxport s;
@@ -112,7 +114,7 @@ Section Step.
        g_enq := g_enq s; g_deq := g_deq s; g_drained := g_drained s; g_wire := g_wire s;
        g_log := g_log s ++ [e]; g_lines := g_lines s; g_packets := g_packets s;
        g_delivered := g_delivered s; g_withheld := g_withheld s; g_emitted := g_emitted s;
-       g_fate := g_fate s; g_armed := g_armed s |}.
+       g_fate := g_fate s; g_armed := g_armed s; g_lost := g_lost s |}.
 
   Fixpoint is_prefix (a b : bytes) : option bytes :=     (* Some rest if b = a ++ rest *)
     match a, b with
@@ -138,7 +140,7 @@ Section Step.
                   g_enq := g_enq s; g_deq := g_deq s; g_drained := g_drained s; g_wire := g_wire s;
                   g_log := g_log s; g_lines := g_lines s; g_packets := g_packets s;
                   g_delivered := g_delivered s; g_withheld := g_withheld s;
-                  g_emitted := g_emitted s; g_fate := g_fate s; g_armed := g_armed s |}
+                  g_emitted := g_emitted s; g_fate := g_fate s; g_armed := g_armed s; g_lost := g_lost s |}
         else None
     | Enq _ i =>
         Some {| now := now s; q := q s ++ [i]; spc_ := spc_ s; flag := flag s; lock := lock s;
@@ -147,7 +149,7 @@ Section Step.
                 g_enq := g_enq s ++ [i]; g_deq := g_deq s; g_drained := g_drained s;
                 g_wire := g_wire s; g_log := g_log s; g_lines := g_lines s;
                 g_packets := g_packets s; g_delivered := g_delivered s;
-                g_withheld := g_withheld s; g_emitted := g_emitted s; g_fate := g_fate s; g_armed := g_armed s |}
+                g_withheld := g_withheld s; g_emitted := g_emitted s; g_fate := g_fate s; g_armed := g_armed s; g_lost := g_lost s |}
     | EDeq i =>
         match q s with
         | h :: r =>
@@ -158,10 +160,18 @@ Section Step.
                       g_enq := g_enq s; g_deq := g_deq s; g_drained := g_drained s ++ [h];
                       g_wire := g_wire s; g_log := g_log s; g_lines := g_lines s;
                       g_packets := g_packets s; g_delivered := g_delivered s;
-                      g_withheld := g_withheld s; g_emitted := g_emitted s; g_fate := g_fate s; g_armed := g_armed s |}
+                      g_withheld := g_withheld s; g_emitted := g_emitted s; g_fate := g_fate s; g_armed := g_armed s; g_lost := g_lost s |}
             else None
         | [] => None
         end
+    | ELost =>
+        Some {| now := now s; q := q s; spc_ := spc_ s; flag := flag s; lock := lock s;
+                rxport := rxport s; rbuf := rbuf s; rpend := rpend s; rpc_ := rpc_ s;
+                logcap := logcap s; logbuf := logbuf s;
+                g_enq := g_enq s; g_deq := g_deq s; g_drained := g_drained s; g_wire := g_wire s;
+                g_log := g_log s; g_lines := g_lines s; g_packets := g_packets s;
+                g_delivered := g_delivered s; g_withheld := g_withheld s;
+                g_emitted := g_emitted s; g_fate := g_fate s; g_armed := g_armed s; g_lost := true |}
     | ELock tid =>
         match lock s with
         | None =>
@@ -171,7 +181,7 @@ Section Step.
                     g_enq := g_enq s; g_deq := g_deq s; g_drained := g_drained s; g_wire := g_wire s;
                     g_log := g_log s; g_lines := g_lines s; g_packets := g_packets s;
                     g_delivered := g_delivered s; g_withheld := g_withheld s;
-                    g_emitted := g_emitted s; g_fate := g_fate s; g_armed := g_armed s |}
+                    g_emitted := g_emitted s; g_fate := g_fate s; g_armed := g_armed s; g_lost := g_lost s |}
         | Some _ => None
         end
     | EUnlock tid =>
@@ -184,7 +194,7 @@ Section Step.
                       g_enq := g_enq s; g_deq := g_deq s; g_drained := g_drained s;
                       g_wire := g_wire s; g_log := g_log s; g_lines := g_lines s;
                       g_packets := g_packets s; g_delivered := g_delivered s;
-                      g_withheld := g_withheld s; g_emitted := g_emitted s; g_fate := g_fate s; g_armed := g_armed s |}
+                      g_withheld := g_withheld s; g_emitted := g_emitted s; g_fate := g_fate s; g_armed := g_armed s; g_lost := g_lost s |}
             else None
         | _ => None
         end
@@ -204,7 +214,7 @@ Section Step.
                       g_enq := g_enq s; g_deq := g_deq s ++ [h]; g_drained := g_drained s;
                       g_wire := g_wire s; g_log := g_log s; g_lines := g_lines s;
                       g_packets := g_packets s; g_delivered := g_delivered s;
-                      g_withheld := g_withheld s; g_emitted := g_emitted s; g_fate := g_fate s; g_armed := g_armed s |}
+                      g_withheld := g_withheld s; g_emitted := g_emitted s; g_fate := g_fate s; g_armed := g_armed s; g_lost := g_lost s |}
             else None
         | _, _ => None
         end
@@ -222,7 +232,7 @@ Section Step.
                     g_enq := g_enq s ++ [IKA]; g_deq := g_deq s; g_drained := g_drained s;
                     g_wire := g_wire s; g_log := g_log s; g_lines := g_lines s;
                     g_packets := g_packets s; g_delivered := g_delivered s;
-                    g_withheld := g_withheld s; g_emitted := g_emitted s; g_fate := g_fate s; g_armed := g_armed s |}
+                    g_withheld := g_withheld s; g_emitted := g_emitted s; g_fate := g_fate s; g_armed := g_armed s; g_lost := g_lost s |}
         | _ => None
         end
     | SSetFlag =>
@@ -234,7 +244,7 @@ Section Step.
                     g_enq := g_enq s; g_deq := g_deq s; g_drained := g_drained s;
                     g_wire := g_wire s; g_log := g_log s; g_lines := g_lines s;
                     g_packets := g_packets s; g_delivered := g_delivered s;
-                    g_withheld := g_withheld s; g_emitted := g_emitted s; g_fate := g_fate s; g_armed := true |}
+                    g_withheld := g_withheld s; g_emitted := g_emitted s; g_fate := g_fate s; g_armed := true; g_lost := g_lost s |}
         | _ => None
         end
     | SLogAdd t =>
@@ -244,8 +254,10 @@ Section Step.
         | _ => None
         end
     | SExit =>
+        (* the exit marker, or any item once the connection is lost (it is dropped, not written) *)
         match spc_ s with
         | SGot IExit => Some (set_spc s SDone)
+        | SGot _ => if g_lost s then Some (set_spc s SDone) else None
         | _ => None
         end
     | SLockAcq =>
@@ -257,7 +269,7 @@ Section Step.
                     g_enq := g_enq s; g_deq := g_deq s; g_drained := g_drained s; g_wire := g_wire s;
                     g_log := g_log s; g_lines := g_lines s; g_packets := g_packets s;
                     g_delivered := g_delivered s; g_withheld := g_withheld s;
-                    g_emitted := g_emitted s; g_fate := g_fate s; g_armed := g_armed s |}
+                    g_emitted := g_emitted s; g_fate := g_fate s; g_armed := g_armed s; g_lost := g_lost s |}
         | _, _ => None
         end
     | SWriteA b =>
@@ -271,7 +283,7 @@ Section Step.
                       g_wire := g_wire s ++ [(now s, i)];
                       g_log := g_log s; g_lines := g_lines s; g_packets := g_packets s;
                       g_delivered := g_delivered s; g_withheld := g_withheld s;
-                      g_emitted := g_emitted s; g_fate := g_fate s; g_armed := g_armed s |}
+                      g_emitted := g_emitted s; g_fate := g_fate s; g_armed := g_armed s; g_lost := g_lost s |}
             else None
         | _ => None
         end
@@ -285,7 +297,7 @@ Section Step.
                     g_enq := g_enq s; g_deq := g_deq s; g_drained := g_drained s; g_wire := g_wire s;
                     g_log := g_log s; g_lines := g_lines s; g_packets := g_packets s;
                     g_delivered := g_delivered s; g_withheld := g_withheld s;
-                    g_emitted := g_emitted s; g_fate := g_fate s; g_armed := g_armed s |}
+                    g_emitted := g_emitted s; g_fate := g_fate s; g_armed := g_armed s; g_lost := g_lost s |}
         | _ => None
         end
     | SLockRel =>
@@ -297,7 +309,7 @@ Section Step.
                     g_enq := g_enq s; g_deq := g_deq s; g_drained := g_drained s; g_wire := g_wire s;
                     g_log := g_log s; g_lines := g_lines s; g_packets := g_packets s;
                     g_delivered := g_delivered s; g_withheld := g_withheld s;
-                    g_emitted := g_emitted s; g_fate := g_fate s; g_armed := g_armed s |}
+                    g_emitted := g_emitted s; g_fate := g_fate s; g_armed := g_armed s; g_lost := g_lost s |}
         | _, _ => None
         end
     | SSleepStartA d =>
@@ -321,7 +333,7 @@ Section Step.
                     g_enq := g_enq s; g_deq := g_deq s; g_drained := g_drained s; g_wire := g_wire s;
                     g_log := g_log s; g_lines := g_lines s; g_packets := g_packets s;
                     g_delivered := g_delivered s; g_withheld := g_withheld s;
-                    g_emitted := g_emitted s; g_fate := g_fate s; g_armed := g_armed s |}
+                    g_emitted := g_emitted s; g_fate := g_fate s; g_armed := g_armed s; g_lost := g_lost s |}
         | _, _, _ => None
         end
     | RLineStart l =>
@@ -335,7 +347,7 @@ Section Step.
                       g_wire := g_wire s; g_log := g_log s; g_lines := g_lines s ++ [l];
                       g_packets := g_packets s ++ [p];
                       g_delivered := g_delivered s; g_withheld := g_withheld s;
-                      g_emitted := g_emitted s; g_fate := g_fate s; g_armed := g_armed s |}
+                      g_emitted := g_emitted s; g_fate := g_fate s; g_armed := g_armed s; g_lost := g_lost s |}
             else None
         | _, _ => None
         end
@@ -358,7 +370,7 @@ Section Step.
                           g_wire := g_wire s; g_log := g_log s; g_lines := g_lines s;
                           g_packets := g_packets s; g_delivered := g_delivered s;
                           g_withheld := g_withheld s; g_emitted := g_emitted s;
-                          g_fate := g_fate s; g_armed := g_armed s |}
+                          g_fate := g_fate s; g_armed := g_armed s; g_lost := g_lost s |}
                 else None
             | None => None
             end
@@ -372,7 +384,7 @@ Section Step.
                   g_enq := g_enq s; g_deq := g_deq s; g_drained := g_drained s; g_wire := g_wire s;
                   g_log := g_log s; g_lines := g_lines s; g_packets := g_packets s;
                   g_delivered := g_delivered s; g_withheld := w;
-                  g_emitted := g_emitted s; g_fate := ft; g_armed := false |} in
+                  g_emitted := g_emitted s; g_fate := ft; g_armed := false; g_lost := g_lost s |} in
         match rpc_ s with
         | RFlag l true => clr RIdle (g_withheld s ++ [l]) (g_fate s ++ [(l, false)])
         | RFlag l false => clr (RDeliver l) (g_withheld s) (g_fate s)
@@ -402,7 +414,7 @@ Section Step.
                       g_wire := g_wire s; g_log := g_log s; g_lines := g_lines s;
                       g_packets := g_packets s; g_delivered := g_delivered s ++ [parse_line l];
                       g_withheld := g_withheld s; g_emitted := g_emitted s;
-                      g_fate := g_fate s ++ [(l, true)]; g_armed := g_armed s |}
+                      g_fate := g_fate s ++ [(l, true)]; g_armed := g_armed s; g_lost := g_lost s |}
             else None
         | _ => None
         end
@@ -415,7 +427,7 @@ Section Step.
                   g_enq := g_enq s; g_deq := g_deq s; g_drained := g_drained s; g_wire := g_wire s;
                   g_log := g_log s; g_lines := g_lines s; g_packets := g_packets s;
                   g_delivered := g_delivered s; g_withheld := g_withheld s;
-                  g_emitted := g_emitted s ++ b; g_fate := g_fate s; g_armed := g_armed s |}
+                  g_emitted := g_emitted s ++ b; g_fate := g_fate s; g_armed := g_armed s; g_lost := g_lost s |}
         else None
     end.
 
